@@ -4,6 +4,7 @@ from vlib.core import Case
 PROP = "C06"
 SPEC_MODE = "oracle"
 KEEP_PREFIX = 1
+SHRINK_BUDGET = 150
 EXTRA_MODULES = ("Sentinel.Lemmas.HotConc", "Sentinel.Lemmas.HotConcCap")
 SIZES = {"quick": 6000, "thorough": 120000}
 BATCH = 3000
